@@ -142,6 +142,8 @@ func WriteFindings(commits map[string]string) error {
 		fixed("D23", "C20", "D23", "wire.Build(os.Stdin): the only diagnostic was positioned inside the standard library (the variable's initialiser), not in the user's sources", "C20 failure without a positioned diagnostic", c20w("item", "os.Stdin", "build")),
 		fixed("D24", "C20", "D24", "wire.Build(os.Exit): the wrong-signature diagnostic was positioned only at the declaration inside the standard library", "C20 failure without a positioned diagnostic", c20w("item", "os.Exit", "build")),
 		fixed("D25", "C20", "D25", "wire.Build(xconf.Dup{}) / wire.Struct(new(xconf.Dup), \"*\") for a struct of a third-party module with two fields of one type: the only diagnostic was positioned at the field inside the dependency", "C20 failure without a positioned diagnostic", c20w("item", "xconf.Dup{}", "build")),
+		fixed("D26", "C20", "D26", "wire.InterfaceValue(new(I), func() I { _ = 1; return C{} }()) as the source of the injector's result: nil pointer dereference in the accessibility check (the blank identifier has no object)", "C20 wire crashed",
+			rawJSON(&C20Case{Cat: "ivalue-needed", Form: "new(I), func() I { _ = 1; return C{} }()", Ctx: "needed", Import: "plain"})),
 		known("D15", "C20", "injector body with extra statements: the invalid-injector diagnostic of `wire gen` carries no file:line:col position (its text is pinned by golden file InvalidInjector of the repository's suite, so a repair would change an expected output)", "C20 failure without a positioned diagnostic",
 			rawJSON(&C20Case{Cat: "injector", Form: "func Inject() S { y := 1; _ = y; wire.Build(NewS); return S{} }", Import: "plain"})),
 		known("D20", "C13", "wire.InterfaceValue(new(I), f()) is accepted and the call is copied into the generated package-level variable (the repository's golden test InterfaceValue uses strings.NewReader(...) and pins acceptance)", "C13",
